@@ -301,7 +301,9 @@ fn norm(v: &J) -> J {
         J::Array(a) => J::Array(a.iter().map(norm).collect()),
         J::Object(m) => J::Object(m.iter().map(|(k, v)| {
             let nv = if COMPOSITE.contains(&k.as_str()) {
-                if v.is_null() { json!({"null": true, "v": []}) } else { json!({"null": false, "v": norm(v)}) }
+                // the placeholder has the shape of what is absent: a record for single objects, a list otherwise
+                let record_position = matches!(k.as_str(), "ofType" | "queryType" | "mutationType" | "subscriptionType");
+                if v.is_null() { if record_position { json!({"null": true, "v": {"absent": true}}) } else { json!({"null": true, "v": []}) } } else { json!({"null": false, "v": norm(v)}) }
             } else {
                 norm(v)
             };
